@@ -348,7 +348,12 @@ pub fn obs_phases(prop: Prop) -> Vec<(&'static str, ObsGen, u64, u64)> {
     match prop {
         Prop::C01 => vec![("sync-histories", ObsGen { w_handle: 3, ..d.clone() }, 400_000, 6_000_000)],
         Prop::C02 => vec![("sync-many-pending", ObsGen { w_sub: 10, w_poll: 14, w_handle: 4, ..d.clone() }, 300_000, 5_000_000)],
-        Prop::C03 => vec![("sync-handles", ObsGen { w_handle: 14, w_write: 5, w_guard: 1, ..d.clone() }, 300_000, 5_000_000)],
+        Prop::C03 => vec![
+            ("sync-handles", ObsGen { w_handle: 14, w_write: 5, w_guard: 1, ..d.clone() }, 300_000, 5_000_000),
+            // the end-of-stream rules are flavour-independent: the same histories on the async-lock
+            // flavour (its value/wake semantics are C16's, a panic or a hang here is C03's too)
+            ("async-handles", ObsGen { flavours: vec![Fl::Async], guards_pct: 0, w_handle: 14, w_write: 5, ..d.clone() }, 60_000, 1_000_000),
+        ],
         Prop::C16 => vec![
             ("both-flavours-differential", ObsGen { flavours: vec![Fl::Both], guards_pct: 0, w_handle: 6, ..d.clone() }, 200_000, 3_000_000),
             ("async-histories", ObsGen { flavours: vec![Fl::Async], guards_pct: 0, ..d.clone() }, 100_000, 1_000_000),
